@@ -753,11 +753,19 @@ class _token_runner:
             and after the identifier. None if no `identifier` is found
         """
         last_identifier = None
+        # What stands between the last name and the identifier we are after: `Select(lambda`
+        # has just a "(" there, `Select(f=lambda` or `else (lambda` something else.
+        self.directly_called = False
+        since_identifier: List[str] = []
         for t in self._tokenizer:
             if t.type == tokenize.NAME:
                 if t.string in identifier:
+                    self.directly_called = since_identifier == ["("]
                     return last_identifier, t
                 last_identifier = t
+                since_identifier = []
+            elif t.type not in (tokenize.NL, tokenize.COMMENT, tokenize.INDENT, tokenize.DEDENT):
+                since_identifier.append(t.string)
             if t.type == tokenize.NEWLINE and not can_encounter_newline:
                 break
         return None, None
@@ -780,6 +788,7 @@ class _token_runner:
         braces = 0
 
         for t in self._tokenizer:
+            self.last_token = t
             if (
                 t.type in stop_condition
                 and t.string in stop_condition[t.type]
@@ -845,6 +854,53 @@ def _get_lambda_in_stream(
     return lda, saw_new_line
 
 
+def _starts_inside_multiline_string(source_lines: List[str], line_index: int) -> bool:
+    """Does the line with this (0 based) index begin inside a string that started on an
+    earlier line? Reading it as code would turn the text of the string into code."""
+    if not 0 <= line_index < len(source_lines):
+        return False
+    text = source_lines[line_index]
+    if '\"\"\"' not in text and "\'\'\'" not in text:
+        return False
+    try:
+        reader = iter(source_lines)
+        for t in tokenize.generate_tokens(lambda: next(reader, "")):
+            if t.start[0] - 1 > line_index:
+                break
+            if t.type != tokenize.STRING and getattr(tokenize, "FSTRING_MIDDLE", -1) != t.type:
+                continue
+            if t.start[0] - 1 < line_index <= t.end[0] - 1:
+                return True
+    except (tokenize.TokenError, SyntaxError, IndentationError):
+        return False
+    return False
+
+
+def _code_body_start(
+    ast_source: Callable, source_lines: List[str]
+) -> Optional[Tuple[int, int]]:
+    """Where (line, character column) the first bit of code in the body of `ast_source` is,
+    if python kept that for its instructions (3.11+, not with `-X no_debug_ranges`, and not
+    for a body that is a bare constant)."""
+    code = getattr(ast_source, "__code__", None)
+    if code is None or not hasattr(code, "co_positions"):
+        return None
+
+    def char_column(line: int, byte_column: int) -> int:
+        "python counts columns in utf-8 bytes, the tokenizer in characters"
+        if not 0 < line <= len(source_lines):
+            return byte_column
+        as_bytes = source_lines[line - 1].encode("utf-8")
+        return len(as_bytes[:byte_column].decode("utf-8", errors="ignore"))
+
+    body_positions = [
+        (line, char_column(line, col))
+        for line, _, col, end_col in code.co_positions()
+        if line is not None and col is not None and not (col == 0 and end_col == 0)
+    ]
+    return min(body_positions) if len(body_positions) > 0 else None
+
+
 def _lambda_at_code_position(
     ast_source: Callable,
     candidates: List[ast.Lambda],
@@ -856,25 +912,9 @@ def _lambda_at_code_position(
 
     Returns `None` if python does not tell us (then the caller has to decide some other way).
     """
-    code = getattr(ast_source, "__code__", None)
-    if code is None or not hasattr(code, "co_positions"):
+    body_start = _code_body_start(ast_source, source_lines)
+    if body_start is None:
         return None
-
-    def char_column(line: int, byte_column: int) -> int:
-        "python counts columns in utf-8 bytes, the tokenizer (our `positions`) in characters"
-        if not 0 < line <= len(source_lines):
-            return byte_column
-        as_bytes = source_lines[line - 1].encode("utf-8")
-        return len(as_bytes[:byte_column].decode("utf-8", errors="ignore"))
-
-    body_positions = [
-        (line, char_column(line, col))
-        for line, _, col, end_col in code.co_positions()
-        if line is not None and col is not None and not (col == 0 and end_col == 0)
-    ]
-    if len(body_positions) == 0:
-        return None
-    body_start = min(body_positions)
 
     # Our lambda is the last one that starts before the first bit of code in the body.
     before_body = [lda for lda in candidates if positions[id(lda)] < body_start]
@@ -907,9 +947,21 @@ def _parse_source_for_lambda(
             f"Unable to use the source of {ast_source}: it is a wrapper around another function."
         )
 
+    if "<lambda>.<locals>.<lambda>" in getattr(ast_source, "__qualname__", ""):
+        # Only the lambdas written directly on a line are looked at below - not one that
+        # another lambda on the line creates.
+        raise ValueError(
+            f"Unable to recover the source of {ast_source}: it was made by another lambda."
+        )
+
     func_name = None
     start_token = None
     source, lambda_line = _get_sourcelines(ast_source)
+    if _starts_inside_multiline_string(source, lambda_line):
+        raise ValueError(
+            f"Unable to recover the source of {ast_source}: its line starts inside a "
+            "multi-line string - put the lambda on a line of its own."
+        )
     t_stream = None
 
     # A lambda can share its line with a one-line `def` (`def f(ds): return ds.Select(lambda
@@ -950,10 +1002,16 @@ def _parse_source_for_lambda(
         # The line (in the file) the lambda we are after starts on, if python can tell us.
         code_first_line = getattr(getattr(ast_source, "__code__", None), "co_firstlineno", None)
         lambda_positions: Dict[int, Tuple[int, int]] = {}
+        lambda_ends: Dict[int, Tuple[int, int]] = {}
+        # The lambdas that are the first argument of the call whose name they are filed under
+        first_argument_of_its_call: List[int] = []
         while not saw_new_line:
             lambda_starts_on_line = lambda_line + start_token.start[0]
             lambda_starts_at_col = start_token.start[1]
+            directly_called = getattr(t_stream, "directly_called", False)
             lda, saw_new_line = _get_lambda_in_stream(t_stream, start_token)
+            if directly_called:
+                first_argument_of_its_call.append(id(lda))
             # A lambda that starts on another line can't be the one we were handed (we might
             # have backed up to an earlier line to find the start of the expression).
             if code_first_line is None or lambda_starts_on_line == code_first_line:
@@ -961,6 +1019,9 @@ def _parse_source_for_lambda(
                     lda
                 )
                 lambda_positions[id(lda)] = (lambda_starts_on_line, lambda_starts_at_col)
+                last_token = getattr(t_stream, "last_token", None)
+                if last_token is not None:
+                    lambda_ends[id(lda)] = (lambda_line + last_token.end[0], last_token.end[1])
 
             if saw_new_line:
                 break
@@ -1019,9 +1080,16 @@ def _parse_source_for_lambda(
             by_position = _lambda_at_code_position(
                 ast_source, all_matching, lambda_positions, source
             )
+            # Without positions the name in front of a lambda is all we have. It settles the
+            # matter only if every one of these lambdas is the first argument of a call (of
+            # another name): `ds.Select(lambda e: 1).Where(lambda e: True)`, but not
+            # `then(ds.Select(lambda e: e.a), lambda e: 8)` or `.Where(filter=lambda e: False)`.
+            not_settled_by_name = len(follow_keyword) > 0 or any(
+                id(lda) not in first_argument_of_its_call for lda in all_matching
+            )
             if by_position is not None:
                 good_lambdas = [by_position]
-            elif len(follow_keyword) > 0 and any(
+            elif not_settled_by_name and any(
                 ast.dump(lda) != ast.dump(all_matching[0]) for lda in all_matching
             ):
                 raise ValueError(
@@ -1048,6 +1116,21 @@ def _parse_source_for_lambda(
             )
 
         lda = good_lambdas[0]
+
+        # However we picked it: if python says where the code of the callable is, that has to
+        # be inside the text of the lambda we found (it is not when the line was read from
+        # inside a multi-line string, or the callable was made by another lambda on the line).
+        body_start = _code_body_start(ast_source, source)
+        if (
+            body_start is not None
+            and id(lda) in lambda_ends
+            and not (lambda_positions[id(lda)] < body_start <= lambda_ends[id(lda)])
+        ):
+            raise ValueError(
+                "The lambda found in the source is not where the code of the callable is"
+                + ("" if caller_name is None else f" (argument to {caller_name})")
+                + " - put the lambda on a line of its own."
+            )
 
     return lda
 
